@@ -59,7 +59,8 @@ pub const MAX_IDX: &[usize] = &[MAXLEN, MAXOCC];
 
 #[derive(Clone, Debug, PartialEq, Eq, Hash)]
 pub enum Op {
-    /// push alphabet move `idx` in flavour 0 Move, 1 uci::Move, 2 Uci(str), 3 San(str)
+    /// push alphabet move `idx` in flavour 0 Move, 1 uci::Move, 2 Uci(str), 3 San(str),
+    /// 4 San(coordinate text)
     Push(usize, u8),
     /// push a garbage token as Uci(str) (0) or San(str) (1)
     Garbage(usize, u8),
@@ -261,6 +262,8 @@ fn apply_in_place(ctx: &mut Ctx, game: &Game, node: &mut Node, parent: &Node, op
                     Err(e) => Err(e.to_string()),
                 },
                 2 => node.real.push(Uci(t.as_str())).map_err(|e| e.to_string()),
+                // the coordinate text through the SAN entry point (the SAN reader takes it too)
+                4 => node.real.push(San(t.as_str())).map_err(|e| e.to_string()),
                 _ => {
                     // legal: the canonical text; pseudo-legal but illegal: what a player would
                     // write (piece letter + destination); otherwise the coordinate text
@@ -525,7 +528,7 @@ pub fn ops_of(game: &Game) -> Vec<Op> {
     for i in 0..game.alphabet.len() {
         v.push(Op::Push(i, 0));
         if game.flavours {
-            for f in 1..4 {
+            for f in 1..5 {
                 v.push(Op::Push(i, f));
             }
         }
